@@ -2,7 +2,7 @@
 # tools/seedrecheck.sh <ID> [check ids...]: re-run check(s) with /verif/seeded/<ID>/patch.diff applied to /repo (reverted afterwards)
 set -u
 ID=$1; shift; CH="${@:-$ID}"
-OUT=/verif/seeded/$ID
+OUT=/verif/seeded${ROUND:-}/$ID
 git -C /repo diff --quiet || { echo "/repo is dirty"; exit 2; }
 git -C /repo apply $OUT/patch.diff || exit 2
 for c in $CH; do
